@@ -58,6 +58,25 @@ func ctorShort(v ssa.Value) string {
 	case "NewServerNoticeMsg", "NewServerNoticeMsgf":
 		return "NOTICE"
 	}
+	// a private helper wrapping a constructor (newZeroCount(id) = NewServerCountMsg(id, 0, nil))
+	if g := an.StaticCallee(&call.Call); an.PrivateHelper(g) && g.Signature.Results().Len() == 1 {
+		set := map[string]bool{}
+		for _, rb := range an.ReturnBlocks(g) {
+			rv := an.ReturnValues(an.LastInstr(rb).(*ssa.Return))[0]
+			if inner := an.CallOf(an.LoadedValue(an.Unwrap(rv))); inner != nil && an.StaticCallee(&inner.Call) == g {
+				continue // recursion
+			}
+			set[ctorShort(rv)] = true
+		}
+		if len(set) > 0 {
+			var ks []string
+			for k := range set {
+				ks = append(ks, k)
+			}
+			sort.Strings(ks)
+			return strings.Join(ks, "|")
+		}
+	}
 	return "?" + short
 }
 
